@@ -119,3 +119,28 @@ func init() {
 		Outside: []string{"more data per metric than the bound", "timestamps before 1970 (Sub saturation)", "several metrics each over its limit (the per-metric pass is independent)"},
 	})
 }
+
+const codegenPkg = "github.com/google/mtail/internal/runtime/compiler/codegen"
+
+func init() {
+	register(&CheckDef{
+		ID:    "C21",
+		Level: "model_checking",
+		Jobs: func(tier string) []JobDef {
+			mk := func(maxb, nobs int) JobDef {
+				return JobDef{Name: fmt.Sprintf("HarnessC21-b%d-o%d", maxb, nobs), Pkg: codegenPkg, Dir: "internal/runtime/compiler/codegen",
+					Harness: []string{"codegen/c21.go"}, Entry: "HarnessC21", Params: p("maxb", maxb, "nobs", nobs),
+					Bound: fmt.Sprintf("histogram declaration with 2..%d boundaries, each any finite float64 (sorted or not); %d observations, each any float64 including NaN and +-Inf", maxb, nobs)}
+			}
+			if tier == "thorough" {
+				return []JobDef{mk(3, 3), mk(4, 2), mk(2, 4)}
+			}
+			return []JobDef{mk(3, 2)}
+		},
+		Assumptions: append([]string{
+			"float64 arithmetic and comparisons are SMT FloatingPoint(11,53) terms with round-nearest-even; math.IsInf/Inf are engine models; sort.Float64s is an insertion sort with sort.Float64Slice's ordering",
+			"the declaration is given to codegen.CodeGen as an ast.VarDecl (the parser turning text into that node is outside the claim)",
+		}, baseAssumptions...),
+		Outside: []string{"more boundaries / observations than the bound", "the parser's handling of the buckets clause", "the Prometheus text rendering of the histogram"},
+	})
+}
